@@ -68,6 +68,16 @@ def char_table():
     return rows
 
 
+def probe_failed(g, name, exc, defaults):
+    """a behavioural probe could not be run (the probed internals were reshaped): the tables it feeds are emitted
+    empty so that the model still builds, and the probe is named in `Generated.probeFailures`; the properties that
+    rest on those tables carry an obligation `probes_ok` that fails then - the other properties are not affected"""
+    g.setdefault('probeFailures', []).append(name)
+    g.setdefault('probeErrors', {})[name] = repr(exc)[:300]
+    for k, v in defaults.items():
+        g[k] = v
+
+
 def extract():
     if REPO not in sys.path:
         sys.path.insert(0, REPO)
@@ -109,7 +119,7 @@ def extract():
                 dialects.append(d)
         g['sqlRegexDialects'] = dialects
     except Exception as e:
-        raise ExtractError('SQL dialect probe failed: %r' % (e,))
+        probe_failed(g, 'sqlRegexDialects', e, {'sqlRegexDialects': []})
 
     # Mongo: server-version gate of the aggregation (regex) prefilter, probed
     try:
@@ -143,15 +153,19 @@ def extract():
     except ExtractError:
         raise
     except Exception as e:
-        raise ExtractError('Mongo probe failed: %r' % (e,))
+        probe_failed(g, 'mongo', e, {'mongoGate': g.get('mongoGate', []), 'mongoOrders': g.get('mongoOrders', []),
+                                      'rulesRename': g.get('rulesRename', [])})
 
     try:
         from vakt.storage.sql.migrations import SQLMigrationSet, Migration0To1x3x0
         g['sqlOrders'] = [Migration0To1x3x0(None).order]
     except Exception as e:
-        raise ExtractError('SQL migration probe failed: %r' % (e,))
+        probe_failed(g, 'sqlOrders', e, {'sqlOrders': []})
 
-    g['regexCacheDefault'] = RegexChecker().compile.cache_info().maxsize
+    try:
+        g['regexCacheDefault'] = RegexChecker().compile.cache_info().maxsize
+    except Exception as e:
+        probe_failed(g, 'regexCacheDefault', e, {'regexCacheDefault': None})
 
     # Mongo data migrations: jsonpickle's reserved tags, and which class paths migration 3 `down` refuses,
     # probed behaviourally on a one-document collection
@@ -179,12 +193,15 @@ def extract():
                 self.doc = doc
                 self.replaced = None
 
-            def find(self):
+            def find(self, *a, **k):
                 import copy as _c
                 return [_c.deepcopy(self.doc)]
 
-            def replace_one(self, flt, doc):
+            def replace_one(self, flt, doc, *a, **k):
                 self.replaced = doc
+
+            def __getattr__(self, name):          # any other collection call a refactored migration may make
+                return lambda *a, **k: None
 
             def drop_index(self, name):
                 pass
@@ -212,7 +229,9 @@ def extract():
     except ExtractError:
         raise
     except Exception as e:
-        raise ExtractError('Mongo migration probe failed: %r' % (e,))
+        probe_failed(g, 'mongoMigration3', e, {'m3ProbeClasses': [], 'm3Irreversible': [],
+                                               'reservedTags': g.get('reservedTags', []),
+                                               'objectTag': g.get('objectTag', 'py/object')})
     # class path written for each rule class, in the order of the constructors of the model's `Rule`
     try:
         import json as _json
@@ -228,7 +247,7 @@ def extract():
                  _proto.RaisingRule(), _proto.ConstRule(True)]
         g['ruleClasses'] = [_json.loads(r.to_json())[jsonpickle.tags.OBJECT] for r in insts]
     except Exception as e:
-        raise ExtractError('rule class table probe failed: %r' % (e,))
+        probe_failed(g, 'ruleClasses', e, {'ruleClasses': []})
     return g
 
 
@@ -260,6 +279,7 @@ def render(g):
     L.append('def m3DownRefuses : List (String × Bool) := [%s]' % ', '.join(
         '(%s, %s)' % (lean_str(c), lean_bool(c in g['m3Irreversible'])) for c in g['m3ProbeClasses']))
     L.append('def ruleClasses : List String := [%s]' % ', '.join(lean_str(x) for x in g['ruleClasses']))
+    L.append('def probeFailures : List String := [%s]' % ', '.join(lean_str(x) for x in g.get('probeFailures', [])))
     L.append('def regexCacheDefault : Option Nat := %s' % (
         'none' if g['regexCacheDefault'] is None else 'some %d' % g['regexCacheDefault']))
     L.append('')
